@@ -327,6 +327,7 @@ def plan(tier, seed):
             jobs.append(("update", "m2-l1-v1-ow%d" % ow, update_job("c18_u21_%d" % ow, mention=2, maxlist=1, vary=1, ow=(ow,))))
         jobs.append(("update", "m1-l2-v1", update_job("c18_u12", mention=1, maxlist=2, vary=1)))
         jobs.append(("update", "m1-l1-v3", update_job("c18_u11", mention=1, maxlist=1, vary=3)))
+        jobs.append(("update", "big-m1-l2-v1", update_job("c18_ub12", big=True, mention=1, maxlist=2, vary=1)))
         jobs += find_jobs("lists3")
         jobs.append(("history", "h4", hist_job("c18_h", 300, seed + 1)))
     else:
@@ -334,9 +335,10 @@ def plan(tier, seed):
             for nm in (0, 1, 2, 3):
                 jobs.append(("update", "m2-l2-v2-n%d-ow%d" % (nm, ow), update_job("c18_u22_%d_%d" % (nm, ow), mention=2, maxlist=2,
                                                                                 vary=2, names=(nm,), ow=(ow,))))
-                jobs.append(("update", "big-m1-l2-v3-n%d-ow%d" % (nm, ow), update_job("c18_ub12_%d_%d" % (nm, ow), big=True, mention=1,
-                                                                                    maxlist=2, vary=3, names=(nm,), ow=(ow,))))
-            jobs.append(("update", "m4-l1-v3-ow%d" % ow, update_job("c18_u41_%d" % ow, mention=4, maxlist=1, vary=3, ow=(ow,))))
+                jobs.append(("update", "big-m2-l2-v1-n%d-ow%d" % (nm, ow), update_job("c18_ub22_%d_%d" % (nm, ow), big=True, mention=2,
+                                                                                    maxlist=2, vary=1, names=(nm,), ow=(ow,))))
+                jobs.append(("update", "m4-l1-v3-n%d-ow%d" % (nm, ow), update_job("c18_u41_%d_%d" % (nm, ow), mention=4, maxlist=1,
+                                                                                vary=3, names=(nm,), ow=(ow,))))
         jobs += find_jobs("lists4", big=True, maxlist=1)
         for i in range(4):
             jobs.append(("history", "h5-%d" % i, hist_job("c18_h%d" % i, 2500, seed * 10 + i + 1, hist=5, big=True)))
